@@ -21,6 +21,10 @@ type Configuration struct {
 //	cfg1, err := mgr.NewConfiguration(qspec1, opts...)
 //	cfg2 := ConfigurationFromRaw(cfg1.RawConfig, qspec2)
 func ConfigurationFromRaw(rawCfg gorums.RawConfiguration, qspec QuorumSpec) (*Configuration, error) {
+	// return an error if the raw configuration is empty; a configuration without nodes cannot be used.
+	if rawCfg.Size() == 0 {
+		return nil, fmt.Errorf("config: missing required nodes")
+	}
 	// return an error if the QuorumSpec interface is not empty and no implementation was provided.
 	var test interface{} = struct{}{}
 	if _, empty := test.(QuorumSpec); !empty && qspec == nil {
